@@ -109,6 +109,16 @@ def selftest(tier, seed):
     r = subprocess.run(["java", "-cp", TLA_JAR, "tlc2.TLC", "-workers", "2", "-metadir", os.path.join(wd, "meta4"), "-cleanup", "-noGenerateSpecTE", "-config", "EdgeImplBad2.cfg", "EdgeImplBad2.tla"],
                        cwd=wd, env=dict(ENV_BASE, FAM="small", MAXRANGES="2"), capture_output=True, text=True)
     results.append(("EdgeImpl.tla: a can_error that overlooks a gap of one byte violates CanErrorExact (StateOk)", "Invariant StateOk is violated" in r.stdout))
+    # Cli.tla: a stripping rule that removes attributes by PREFIX (token_kind, logos_ext go too) is not what KeepIsExact states
+    src = open(os.path.join(SPEC, "Cli.tla")).read().replace('IsLogosAttr(a) == a \\in {"logos", "token", "regex"}', 'IsLogosAttr(a) == a \\in {"logos", "token", "regex"}\nDrops(a) == a \\in {"logos", "token", "regex", "token_kind", "logos_ext"}')
+    src = src.replace("(IF IsLogosAttr(Head(s)) THEN <<>> ELSE <<Head(s)>>) \\o KeepAttrs(Tail(s))", "(IF Drops(Head(s)) THEN <<>> ELSE <<Head(s)>>) \\o KeepAttrs(Tail(s))").replace("MODULE Cli", "MODULE CliBad")
+    with open(os.path.join(wd, "CliBad.tla"), "w") as f:
+        f.write(src)
+    with open(os.path.join(wd, "CliBad.cfg"), "w") as f:
+        f.write("SPECIFICATION Spec\nCHECK_DEADLOCK FALSE\n")
+    r = subprocess.run(["java", "-cp", TLA_JAR, "tlc2.TLC", "-workers", "2", "-metadir", os.path.join(wd, "meta5"), "-cleanup", "-noGenerateSpecTE", "-config", "CliBad.cfg", "CliBad.tla"],
+                       cwd=wd, env=dict(ENV_BASE, MAXOPS="1"), capture_output=True, text=True)
+    results.append(("Cli.tla: a rule that strips attributes by name prefix violates KeepIsExact (ASSUME)", "Assumption" in r.stdout and "is false" in r.stdout))
     ok = True
     for name, good in results:
         print("%s  %s" % ("ok  " if good else "FAIL", name))
